@@ -17,6 +17,7 @@ import dask.array as da
 import numpy as np
 import pandas as pd
 import xarray as xr
+from dask.delayed import delayed
 from tqdm.auto import tqdm
 
 from pyxel.calibration import Algorithm, IslandProtocol
@@ -29,6 +30,20 @@ if TYPE_CHECKING:
     from numpy.typing import ArrayLike
 
     from pyxel.exposure import Readout
+
+
+def _get_bucket_3d(
+    data_tree: xr.DataTree, name: str, shape: tuple[int, int, int]
+) -> np.ndarray:
+    """Get a 3D array from the bucket 'name' of a result of 'run_pipeline'.
+
+    A bucket that was never initialized by a model is filled with NaN.
+    """
+    array: np.ndarray = data_tree[f"/bucket/{name}"].to_numpy()
+    if array.ndim != len(shape):
+        return np.full(shape, fill_value=np.nan)
+
+    return array
 
 
 def extract_data_3d(
@@ -44,12 +59,13 @@ def extract_data_3d(
         island: int = row["island"]
         id_processor: int = row["id_processor"]
         data_tree: Delayed = row["data_tree"]
+        shape = (times, rows, cols)
 
-        photon_delayed: Delayed = data_tree["photon"]  # type: ignore
-        charge_delayed: Delayed = data_tree["charge"]  # type: ignore
-        pixel_delayed: Delayed = data_tree["pixel"]  # type: ignore
-        signal_delayed: Delayed = data_tree["signal"]  # type: ignore
-        image_delayed: Delayed = data_tree["image"]  # type: ignore
+        photon_delayed: Delayed = delayed(_get_bucket_3d)(data_tree, "photon", shape)
+        charge_delayed: Delayed = delayed(_get_bucket_3d)(data_tree, "charge", shape)
+        pixel_delayed: Delayed = delayed(_get_bucket_3d)(data_tree, "pixel", shape)
+        signal_delayed: Delayed = delayed(_get_bucket_3d)(data_tree, "signal", shape)
+        image_delayed: Delayed = delayed(_get_bucket_3d)(data_tree, "image", shape)
 
         photon_3d = da.from_delayed(
             photon_delayed, shape=(times, rows, cols), dtype=float
